@@ -98,6 +98,20 @@ pub fn corpus(seed: u64, n: u64) -> Vec<(String, Tree)> {
     games
 }
 
+/// the presets and four tuples outside them: forgetting positive regret (discount factor exactly zero),
+/// forgetting negative regret with the arg-min fallback, negative exponents with a finite softmax
+pub const PARAM_SETS: [&str; 9] = ["vanilla", "lcfr", "cfr_plus", "dcfr", "dcfr_prune", "forget-pos", "forget-both", "argmin", "softmax"];
+
+pub fn param_set(name: &str) -> Value {
+    match name {
+        "forget-pos" => json!({"a": ["ninf"], "b": ["q", 1, 1], "g": ["q", 1, 1], "w": ["q", 0, 1]}),
+        "forget-both" => json!({"a": ["ninf"], "b": ["ninf"], "g": ["q", 0, 1], "w": ["pinf"]}),
+        "argmin" => json!({"a": ["q", 1, 1], "b": ["ninf"], "g": ["q", 2, 1], "w": ["ninf"]}),
+        "softmax" => json!({"a": ["q", -1, 1], "b": ["q", -1, 1], "g": ["q", 1, 2], "w": ["q", -1, 1]}),
+        preset => cfr::preset(preset),
+    }
+}
+
 fn site_name(s: Site) -> &'static str {
     match s {
         Site::Chance => "C",
@@ -118,7 +132,7 @@ fn traced(t: &Tree, meth: &str, preset: &str, k: usize, iters: u64, seed: u64, y
         verif::set_draw_seed(Some(seed));
         verif::set_record(true, true);
         verif::set_yield_seed(yields);
-        let res = game.solve(cfr::method(&meth), iters, 0.0, k, Some(cfr::params(&cfr::preset(&preset))));
+        let res = game.solve(cfr::method(&meth), iters, 0.0, k, Some(cfr::params(&param_set(&preset))));
         let log = verif::take_log();
         verif::reset();
         let (strat, bound) = res.map_err(|e| format!("{e:?}"))?;
@@ -246,7 +260,7 @@ pub fn record(args: &Args) {
             if only.map_or(false, |o| o != *meth) {
                 continue;
             }
-            let preset = PRESETS[(gi + mi) % 5];
+            let preset = PARAM_SETS[(gi + mi) % 9];
             for &iters in budgets {
                 let sd = seed.wrapping_mul(31).wrapping_add(gi as u64);
                 let base = match traced(&tg, meth, preset, 1, iters, sd, 0) {
